@@ -13,7 +13,16 @@ class NotConstant(Exception):
 
 
 _PURE = {'enumerate': enumerate, 'zip': zip, 'range': range, 'dict': dict, 'list': list, 'tuple': tuple, 'reversed': reversed,
-         'ord': ord, 'chr': chr, 'len': len, 'sorted': sorted, 'str': str, 'int': int, 'frozenset': frozenset, 'set': set}
+         'ord': ord, 'chr': chr, 'len': len, 'sorted': sorted, 'str': str, 'int': int, 'frozenset': frozenset, 'set': set,
+         'pow': lambda a, b: _small_pow(a, b), 'sum': sum, 'min': min, 'max': max, 'abs': abs}
+
+
+def _small_pow(a, b):
+    if not (isinstance(a, int) and isinstance(b, int) and 0 <= b <= 64 and abs(a) <= 1024):
+        raise ValueError('pow outside the folded range')
+    return a ** b
+
+
 _STRING_CONSTS = {'ascii_uppercase': string.ascii_uppercase, 'ascii_lowercase': string.ascii_lowercase, 'digits': string.digits,
                   'ascii_letters': string.ascii_letters}
 MAX_ITEMS = 4096
